@@ -212,7 +212,7 @@ def body_factory(tier, seed):
 
 
 def run(rep, tier, seed):
-    return C.standard_run(rep, "C08", ["Model/CaseFrame.vo"], body_factory(tier, seed), rule=(
+    return C.standard_run(rep, "C08", ["Model/CaseFrame.vo"], [body_factory(tier, seed + 1000 * i) for i in range(3 if tier == "thorough" else 1)], rule=(
         "exhaustive: all JSON arrays of length 0..5 (quick) / 0..7 (thorough) over the alphabet [2,3,4,5,2.0,true,'s',{},[],null] "
         "through the real unpack and, tallied per (first element, length), through the model; plus malformed / hostile / "
         "random frames (str and bytes, truncated, huge literals, deep nesting, surrogates, non-UTF-8) and random messages through "
